@@ -45,7 +45,9 @@ INPUT_SIGS = {
         ensures *r == old(self).off(), final(self).off() == *final(r), final(self).ctx() == old(self).ctx(),'''),
     'as_position': ("fn as_position(&self) -> (r: Position<'i>)", '''
         requires input_inv(self.ctx(), self.off()),
-        ensures r.input == self.ctx().input, r.pos == self.off(),'''),
+        ensures r.input == self.ctx().input, r.pos == self.off(),
+                // a Position is a cursor over the WHOLE string: its bounds are 0 and len, whatever self's were
+                input_inv(Ctx { input: r.input, start: 0, end: r.input.spec_bytes().len() }, r.pos as nat),'''),
     'match_insensitive': ("fn match_insensitive(&mut self, string: &'i str) -> (res: bool)", '''
         requires input_inv(old(self).ctx(), old(self).off()),
         ensures final(self).ctx() == old(self).ctx(), input_inv(final(self).ctx(), final(self).off()),
@@ -106,18 +108,37 @@ pub trait AsInput<'i> {
 ''' % (ASINPUT_SPECS, ASINPUT_CONTRACT.rstrip(','))
 
 
-def input_trait_decl(methods):
+def input_trait_decl(methods, position_impl=False):
+    """Contracts-only declaration of trait Input.  position_impl=True additionally declares as_position and the
+    (contracts-only, external_body) impl of Input for Position — proved in unit `input` — so that code converting a
+    cursor with `as_position()` stays within the verified text and is judged against the Position's own bounds."""
+    if position_impl and 'as_position' not in methods:
+        methods = list(methods) + ['as_position']
     body = []
     for m in methods:
         sig, c = INPUT_SIGS[m]
         body.append('    ' + sig + c.rstrip() + ';\n')
-    return '''
+    out = '''
 pub trait Input<'i>: Copy {
     spec fn ctx(&self) -> Ctx<'i>;
     spec fn off(&self) -> nat;
 ''' + ''.join(body) + '''}
 pub open spec fn inv<'i, I: Input<'i>>(i: I) -> bool { input_inv(i.ctx(), i.off()) }
 '''
+    if position_impl:
+        ms = []
+        for m in methods:
+            sig, _ = INPUT_SIGS[m]
+            ms.append('    #[verifier::external_body] ' + sig + ' { unimplemented!() }\n')
+        out += '''
+// contracts of trait Input for Position (bodies proved in unit `input`)
+impl<'i> Clone for Position<'i> { fn clone(&self) -> Self { *self } }
+impl<'i> Copy for Position<'i> {}
+impl<'i> Input<'i> for Position<'i> {
+    open spec fn ctx(&self) -> Ctx<'i> { Ctx { input: self.input, start: 0, end: self.input.spec_bytes().len() } }
+    open spec fn off(&self) -> nat { self.pos as nat }
+''' + ''.join(ms) + '}\n'
+    return out
 
 
 CORE = r'''
